@@ -1,6 +1,7 @@
 package main
 
 import (
+	"encoding/json"
 	"fmt"
 	"os"
 	"path/filepath"
@@ -49,7 +50,7 @@ func genC18(seed uint64, idx int, thorough bool) (spec.Run, c18Meta) {
 	if wr.Bool() {
 		meta.Focus = append(meta.Focus, spec.Pick(wr, allTS))
 	}
-	meta.Shared = []string{"shared-default", "shared-base", "none", "mixed", "shared-default"}[(idx/len(allTS))%5]
+	meta.Shared = []string{"shared-default", "none", "shared-base", "none", "mixed"}[(idx/len(allTS))%5]
 	meta.Faulted = wr.Chance(1, 8)
 	meta.Gomax = spec.Pick(wr, []int{1, 2, 4, 16})
 	maxDim := 24
@@ -396,6 +397,9 @@ func plan(b *Build, run *spec.Run, meta *c18Meta, rc *refCache, seed uint64) {
 	}
 	var segs []spec.Seg
 	pol := r.Intn(20)
+	if meta.Shape == "twins" && pol >= 10 && pol < 15 {
+		pol = 0 // twins runs favour pin-and-sweep (15/20)
+	}
 	switch {
 	case pol < 10: // pin-and-sweep
 		meta.Policy = "pin-and-sweep"
@@ -414,9 +418,18 @@ func plan(b *Build, run *spec.Run, meta *c18Meta, rc *refCache, seed uint64) {
 				continue
 			}
 			c := spec.Pick(r, cands)
-			delta := uint64(1 + r.Intn(64))
-			if c.post && r.Bool() {
-				delta = 0
+			// atomicity windows are a handful of steps wide: half of the pins park within 2 steps
+			var delta uint64
+			switch r.Intn(4) {
+			case 0, 1:
+				delta = uint64(r.Intn(3))
+			case 2:
+				delta = uint64(3 + r.Intn(6))
+			default:
+				delta = uint64(9 + r.Intn(56))
+			}
+			if !c.post && delta == 0 {
+				delta = 1
 			}
 			segs = append(segs, spec.Seg{Task: a, Until: c.step + delta})
 			what := "entry/exit"
@@ -556,16 +569,18 @@ func plan(b *Build, run *spec.Run, meta *c18Meta, rc *refCache, seed uint64) {
 // ---------------------------------------------------------------- evaluation
 
 type c18Outcome struct {
-	viols        []Violation
-	switches     int
-	ilvHash      string
-	steps        uint64
-	fired        map[string]int
-	races        int
-	sharedChg    int
-	soloUnstable int
-	wallS        float64
-	infra        string
+	viols         []Violation
+	switches      int
+	ilvHash       string
+	steps         uint64
+	fired         map[string]int
+	races         int
+	sharedChg     int
+	blockedYields uint64
+	stepsDiffer   int
+	soloUnstable  int
+	wallS         float64
+	infra         string
 }
 
 // evalC18 executes one planned run and applies the oracles.
@@ -590,6 +605,7 @@ func evalC18(b *Build, run *spec.Run, rc *refCache, dir string, timeout time.Dur
 		return out
 	}
 	out.switches = len(res.Switches)
+	out.blockedYields = res.BlockedYields
 	out.steps = res.TotalSteps
 	var sb strings.Builder
 	for _, s := range res.Switches {
@@ -629,6 +645,9 @@ func evalC18(b *Build, run *spec.Run, rc *refCache, dir string, timeout time.Dur
 			if ref == nil || ref.err != nil {
 				out.infra = fmt.Sprintf("missing reference for op %s/%s: %v", op.Kind, op.TS, ref)
 				return out
+			}
+			if ref.res.Steps != got.Steps {
+				out.stepsDiffer++
 			}
 			if d := compareOp(&ref.res, got); d != "" {
 				sig := fmt.Sprintf("solo-mismatch: %s %s params=%s", op.Kind, opTarget(op), op.Params.Mode)
@@ -690,7 +709,7 @@ func checkC18(o checkOpts) int {
 	}
 	calibrate(b)
 	thorough := o.tier == "thorough"
-	N := o.n(280, 20000)
+	N := o.n(420, 12000)
 	findings := loadFindings()
 
 	runs := make([]spec.Run, N)
@@ -710,8 +729,21 @@ func checkC18(o checkOpts) int {
 			infraFail("reference run failed for %s %s: %v", e.op.Kind, e.op.TS, e.err)
 		}
 	}
+	sweepRuns, sweepMetas := genSiteSweep(b, rc, o, thorough)
+	nSeeded := len(runs)
+	runs = append(runs, sweepRuns...)
+	metas = append(metas, sweepMetas...)
+	N = len(runs)
 	for i := range runs {
-		plan(b, &runs[i], &metas[i], rc, runs[i].Seed)
+		if i < nSeeded {
+			plan(b, &runs[i], &metas[i], rc, runs[i].Seed)
+		}
+		if len(b.Table.Degraded) > 0 {
+			// library-internal goroutines are outside the scheduler's control: a Step executed by one of
+			// them must never park it, so clients only run one after another (no preemption inside calls);
+			// the race detector and the behavioural oracles remain sound
+			degradeToSequential(&runs[i], &metas[i])
+		}
 	}
 	outs := make([]c18Outcome, N)
 	t1 := time.Now()
@@ -730,6 +762,8 @@ func checkC18(o checkOpts) int {
 	fired := newCounter()
 	var steps uint64
 	var switches, races, sharedChg int
+	var blockedYields uint64
+	var stepsDiffer int
 	cover := map[string]bool{}
 	for i := range outs {
 		if outs[i].infra != "" {
@@ -741,6 +775,8 @@ func checkC18(o checkOpts) int {
 		switches += outs[i].switches
 		races += outs[i].races
 		sharedChg += outs[i].sharedChg
+		blockedYields += outs[i].blockedYields
+		stepsDiffer += outs[i].stepsDiffer
 		for k, v := range outs[i].fired {
 			fired.add(k, v)
 		}
@@ -809,6 +845,22 @@ func checkC18(o checkOpts) int {
 	if len(holes) > 0 {
 		logf("C18: WARNING coverage holes (%d of %d cells without a partner on the same instance): %s", len(holes), 14*2*4, strings.Join(holes, " "))
 	}
+	if dbg := os.Getenv("VERIF_DEBUG_DUMP"); dbg != "" {
+		type dump struct {
+			Meta c18Meta
+			Ops  []string
+			Viol int
+		}
+		var ds []dump
+		for i := range runs {
+			ds = append(ds, dump{metas[i], describeOps(&runs[i]), len(outs[i].viols)})
+		}
+		bts, _ := json.MarshalIndent(ds, "", " ")
+		os.WriteFile(dbg, bts, 0o644)
+	}
+	if stepsDiffer > 0 && nViol == 0 && len(knownMatched) == 0 {
+		logf("C18: WARNING %d operations took a different number of steps than alone although no violation was found (harness misalignment?)", stepsDiffer)
+	}
 	wall := w.secs()
 	samples := []interface{}{}
 	for i := 0; i < N && i < 3; i++ {
@@ -832,7 +884,9 @@ func checkC18(o checkOpts) int {
 			"coverage_cells_hit":     len(cover),
 			"coverage_holes":         holes,
 			"probes": map[string]interface{}{
-				"shared_parameter_objects_changed_value": sharedChg,
+				"shared_parameter_objects_changed_value":                        sharedChg,
+				"baton_handoffs_on_contended_library_locks":                     blockedYields,
+				"operations_whose_step_count_differs_from_their_solo_reference": stepsDiffer,
 			},
 			"known_findings_matched": knownMatched,
 			"components": map[string]interface{}{
@@ -841,7 +895,7 @@ func checkC18(o checkOpts) int {
 				"not_exercised": []string{"go-dicom Transcoder and dataset layer"},
 			},
 			"build_s":      b.BuildS,
-			"instrumented": map[string]interface{}{"sites": len(b.Table.Sites), "hot_sites": len(b.hot), "packages": len(b.Table.Packages), "degraded": b.Table.Degraded},
+			"instrumented": map[string]interface{}{"sites": len(b.Table.Sites), "hot_sites": len(b.hot), "packages": len(b.Table.Packages), "degraded": b.Table.Degraded, "map_loops_behind_seam": b.Table.MapLoops, "files_with_sync_shimmed": b.Table.SyncShimmed},
 			"tree":         b.Tree,
 		},
 		Assumptions: []string{
@@ -873,4 +927,116 @@ func describeOps(run *spec.Run) []string {
 		out = append(out[:12], fmt.Sprintf("… %d more", len(out)-12))
 	}
 	return out
+}
+
+// degradeToSequential replaces a planned schedule by the sequential one that visits the
+// clients in the order the plan first mentions them.
+func degradeToSequential(run *spec.Run, meta *c18Meta) {
+	seen := map[int]bool{}
+	var segs []spec.Seg
+	for _, sg := range run.Schedule {
+		if !seen[sg.Task] {
+			seen[sg.Task] = true
+			segs = append(segs, spec.Seg{Task: sg.Task, Until: farStep})
+		}
+	}
+	for t := range run.Tasks {
+		if !seen[t] {
+			segs = append(segs, spec.Seg{Task: t, Until: farStep})
+		}
+	}
+	run.Schedule = segs
+	meta.Policy = "sequential(degraded from " + meta.Policy + ")"
+}
+
+// genSiteSweep is the enumerated part of C18 (fault enumeration over write-hot sites): for
+// every registry codec x {Encode, Decode} x {private differing parameters, one shared
+// default object}, client A is parked right at every distinct write-hot site its operation
+// reaches (first and last occurrence) while one same-kind and one other-kind client on the
+// same codec instance run to completion; then A resumes. On a correct tree an operation
+// reaches only a few such sites (parameter extraction, Validate); a change that adds a
+// cache, a pool, a lock, a lazily built table or a codec field adds sites, and each is
+// visited deterministically instead of by chance.
+func genSiteSweep(b *Build, rc *refCache, o checkOpts, thorough bool) ([]spec.Run, []c18Meta) {
+	type tmpl struct {
+		ts, kind, variant string
+		a, s1, s2         spec.Op
+	}
+	var ts []tmpl
+	var ops []spec.Op
+	for ci, codec := range allTS {
+		for ki, kind := range []string{"enc", "dec"} {
+			for vi, variant := range []string{"private", "shared"} {
+				r := spec.NewRng(spec.SplitMix64(o.seed^0x517E) ^ uint64(ci*16+ki*4+vi))
+				in := genInfo(r, codec, genOpt{maxDim: 16})
+				mk := func(k string) spec.Op {
+					op := spec.Op{Kind: k, TS: codec, Info: in, Frames: genFrames(r, 1), From: -1, Obj: 1}
+					if k == "dec" {
+						op.Pre = true
+						op.PreKV = genKV(r, codec)
+					}
+					if variant == "shared" {
+						op.Params = spec.Params{Mode: "shared-default"}
+					} else {
+						op.Params = spec.Params{Mode: spec.Pick(r, []string{"default", "base"}), KV: genKV(r, codec)}
+					}
+					return op
+				}
+				other := "dec"
+				if kind == "dec" {
+					other = "enc"
+				}
+				t := tmpl{ts: codec, kind: kind, variant: variant, a: mk(kind), s1: mk(kind), s2: mk(other)}
+				ts = append(ts, t)
+				ops = append(ops, t.a, t.s1, t.s2)
+			}
+		}
+	}
+	rc.fill(ops, o.procs)
+	var runs []spec.Run
+	var metas []c18Meta
+	for _, t := range ts {
+		e := rc.get(&t.a)
+		if e == nil || e.err != nil {
+			continue
+		}
+		seen := map[uint32]bool{}
+		for _, h := range e.hist {
+			site, hot := b.hot[h.Site]
+			if !hot || site.Hot != "w" || seen[h.Site] {
+				continue
+			}
+			seen[h.Site] = true
+			post := b.Table.Sites[h.Site].Kind == "post"
+			occs := []uint64{h.First}
+			if h.Last != h.First {
+				occs = append(occs, h.Last)
+			}
+			// park exactly at the site: before the statement for a "pre" site, right after it for a
+			// "post" site (a site's recorded step index is the step at which its hook runs)
+			_ = post
+			deltas := []uint64{0, 1, 2, 4}
+			if !thorough {
+				deltas = deltas[:1]
+			}
+			for _, occ := range occs {
+				for _, d := range deltas {
+					run := spec.Run{Mode: "sched", Seed: o.seed, Gomaxprocs: 4, SortMaps: true,
+						Tasks:    []spec.Task{{Ops: []spec.Op{t.a}}, {Ops: []spec.Op{t.s1}}, {Ops: []spec.Op{t.s2}}},
+						Schedule: []spec.Seg{{Task: 0, Until: occ + d}, {Task: 1, Until: farStep}, {Task: 2, Until: farStep}, {Task: 0, Until: farStep}}}
+					var sum uint64
+					for _, op := range []*spec.Op{&t.a, &t.s1, &t.s2} {
+						if x := rc.get(op); x != nil {
+							sum += x.res.Steps
+						}
+					}
+					run.StepCap = sum*3 + 50_000_000
+					runs = append(runs, run)
+					metas = append(metas, c18Meta{Shape: "site-sweep/" + t.variant, Policy: "pin-and-sweep(enumerated)", Clients: 3, Shared: t.variant, Focus: []string{t.ts},
+						Pins: []string{fmt.Sprintf("task0@%d+%d %s/w", occ, d, b.siteName(h.Site))}})
+				}
+			}
+		}
+	}
+	return runs, metas
 }
